@@ -295,6 +295,24 @@ class _Conv:
                             problem = "stop set on a rail that did not block"
                     if problem:
                         bad.append((CL_LOG, "%s: log %s, expected input/output entries %s" % (problem, _clip(entries, 300), _clip(exp["log"], 260))))
+        # ---- the same request object submitted again (a client that keeps its `messages` list and re-sends it) is the same request
+        if bot is not None and self.mode == "single" and form == "messages" and not bad:
+            env.ver.clear()
+            env.ver.update(ver)
+            del env.calls[:]
+            try:
+                res2 = env.call(**kw)
+                resp2 = res2.get("content") if isinstance(res2, dict) else res2.response
+                if isinstance(resp2, list) and len(resp2) == 1 and isinstance(resp2[0], dict):
+                    resp2 = resp2[0].get("content")
+                if resp2 != exp["reply"]:
+                    bad.append((CL_REPLY, "the same `messages` list object submitted a second time: reply %r, expected %r (list now: %s)"
+                                % (_clip(resp2), _clip(exp["reply"]), _clip(kw["messages"], 200))))
+            except BaseException as ex:
+                if isinstance(ex, (KeyboardInterrupt, SystemExit, _Watchdog)):
+                    raise
+                bad.append((CL_EXC, "the same `messages` list object submitted a second time: raised %s: %s (list now: %s)"
+                            % (type(ex).__name__, str(ex)[:120], _clip(kw["messages"], 200))))
         # the conversation goes on with what was actually replied
         self.history += [{"role": "user", "content": user},
                          {"role": "assistant", "content": content if isinstance(content, str) else exp["reply"]}]
